@@ -84,12 +84,16 @@ def dmAuxOp (j : Json) : R Json := do
   let vf := vecFn v n; let vpf := vecFn vp n
   let pa := piGrad am ph false vf vpf
   let pp := piGrad am ph true vf vpf
+  let qa := piGradNoExpand am ph false vf vpf
+  let qp := piGradNoExpand am ph true vf vpf
   return Json.mkObj [
     ("eff_grad", outPRBM (am.effEnergyGrad1 vf)),
     ("gamma_grad_plus", outPRBM (gammaGrad am 1.0 vf vpf)),
     ("gamma_grad_minus", outPRBM (gammaGrad ph (-1.0) vf vpf)),
     ("pi_grad_am", .arr #[outPRBM pa.1, outPRBM pa.2]),
-    ("pi_grad_ph", .arr #[outPRBM pp.1, outPRBM pp.2])]
+    ("pi_grad_ph", .arr #[outPRBM pp.1, outPRBM pp.2]),
+    ("pi_grad_am_noexpand", .arr #[outPRBM qa.1, outPRBM qa.2]),
+    ("pi_grad_ph_noexpand", .arr #[outPRBM qp.1, outPRBM qp.2])]
 
 def handle (op : String) (j : Json) : Option (R Json) :=
   match op with
